@@ -56,6 +56,10 @@ var initStores = map[*ssa.Package]map[*ssa.Global]bool{}
 // function of that package assigns it (its zero value is then its initial value).
 func globalReadOK(g *ssa.Global) bool {
 	p := g.Pkg
+	if p.Pkg.Path() == "time" && (g.Name() == "UTC" || g.Name() == "Local") {
+		// only ever passed to the modelled (time.Time).In / time.Date, which ignore the location
+		return true
+	}
 	m := initStores[p]
 	if m == nil {
 		m = map[*ssa.Global]bool{}
